@@ -30,7 +30,7 @@ template <class... Mds> void dump(Out &o, int step, const int *base, long checks
   v.push_back(checksum);
   o.field(("o" + std::to_string(step)).c_str(), Out::list(v));
 }
-inline long buf_checksum(const std::vector<int> &b) { long s = 0; for (size_t i = 0; i < b.size(); ++i) s = s * 31 + b[i]; return s % 1000003; }
+inline long buf_checksum(const std::vector<int> &b) { unsigned long s = 0; for (size_t i = 0; i < b.size(); ++i) s = (s * 31u + (unsigned long)(long)b[i]) % 1000003u; return (long)s; }
 
 template <class A> struct make_acc { static A make(int) { return A(); } };
 template <class T> struct make_acc<tag_accessor<T>> { static tag_accessor<T> make(int h) { return tag_accessor<T>(10 + h); } };
